@@ -64,6 +64,15 @@ ChainDocumented == \A c \in Modes :
 \* the opposite reading of the seeded kind (the exclusion of `a OR -b AND c` ignored) must fail
 ExclusionIgnored == \A c \in Modes : MS(Ch3("", Atom(q), "OR", "-", A, "AND", "", B), c) = MS(q, c) \cup MS(B, c)
 
+\* an AND / OR expression whose operands are all-negative groups is all negative too (refused); the lenient
+\* parser's "or anything" joins the expression's own clause list: required operands that select nothing leave
+\* nothing, optional ones leave everything
+NegativeExpr == \A c \in Modes :
+   LET n1 == <<"paren", <<"bool", << <<"-", Atom(q)>> >>>>>>   n2 == <<"paren", <<"bool", << <<"-", A>> >>>>>> IN
+   /\ AllNegative(<<"bin", <<n1, n2>>, <<"AND">>>>) /\ NegatedSet(<<"bin", <<n1, n2>>, <<"AND">>>>, c) = {}
+   /\ AllNegative(<<"bin", <<n1, n2>>, <<"OR">>>>) /\ NegatedSet(<<"bin", <<n1, n2>>, <<"OR">>>>, c) = 1..ND
+   /\ ~AllNegative(<<"bin", <<n1, A>>, <<"OR">>>>)
+
 \* a phrase keeps the positions of its words when the analyzer drops one of them (LW): the literal text (9) and
 \* `ab ba c` (7) match `"ab zz..z c"`, `ab c` (1) does not; a dropped word in front or at the end changes nothing
 ASSUME PhraseGaps ==
